@@ -171,6 +171,17 @@ class SymRun:
                             'binds': {str(k): self.describe_handle(v) for k, v in sub.items}})
             self.extra = {'ematch': {'matches': out, 'unchanged': self.fingerprint() == before}}
             return
+        if op[0] == 'extract':
+            term, cf = op[1], op[2]
+            self.R.tymap['CF'] = cf
+            ext = {'x': ex.call(self.M('Extractor::new'), [self.egref, Struct({}, cf)])}
+            canon = {'c': ex.call(self.M('EGraph::find_applied_id'), [self.egref, self.href(term)])}
+            re_ = {'r': ex.call(self.M('Extractor::extract'), [Ref(ext, 'x'), self.href(term), self.egref])}
+            cost = ex.call(self.M('Extractor::get_best_cost'), [Ref(ext, 'x'), Ref(canon, 'c')])
+            lk = ex.call(self.M('lookup_rec_expr'), [Ref(re_, 'r'), self.egref])
+            self.extra = {'extract': {'cf': cf, 'cost': conc(cost), 'term': self.describe_rec(re_['r']), 'lookup_some': lk.disc == 1,
+                                      'lookup_eq': self.eq(lk.payload.f[0], self.handles[term]) if lk.disc == 1 else None}}
+            return
         if op[0] == 'rewrite':
             rws = [self.mk_rewrite(r) for r in op[1]]
             r = ex.call(self.M('apply_rewrites'), [self.egref, SliceRef(rws, 0, len(rws))])
@@ -243,6 +254,18 @@ class SymRun:
             r = self.ex.call(self.M('EGraph::lookup'), [self.egref, Ref(cell, 'n')])
             return r.payload.f[0] if r.disc == 1 else None
         return rec(term)
+    def describe_rec(self, re_):
+        """RecExpr -> nested list [op, slot values / sub-terms ...] (the AppliedIds inside the node are placeholders)"""
+        node = re_.f[0]; kids = list(re_.f[1].items)
+        rev = {v: k.split('::')[1] for k, v in self.S.enums.items() if k.startswith(self.lang + '::')}
+        vname = rev[node.disc]; op = next(o for o, (vn, _) in self.variants.items() if vn == vname)
+        out = [op]; fi = 0
+        for kind in self.variants[op][1]:
+            if kind == 's': out.append(node.payload.f[fi].f[0]); fi += 1
+            elif kind == 'b': out.append(node.payload.f[fi].f[0].f[0])
+            else: out.append(self.describe_rec(kids.pop(0))); fi += 1
+        return out
+
     def describe_handle(self, h):
         c = self.ex.call(self.M('EGraph::find_applied_id'), [self.egref, Ref({'h': h}, 'h')])
         return {'id': conc(c.f[0].f[0]), 'vals': [p.f[1].f[0] for p in c.f[1].f[0].items]}
@@ -400,6 +423,9 @@ def concretize(run, ex):
                             'vals': sorted(str(name_of_value(v, N, vals, model)) for v in c['vals']),
                             'map': sorted((str(name_of_value(k, N, vals, model)), str(name_of_value(v, N, vals, model))) for k, v in zip(c['keys'], c['vals'])),
                             'hvals': sorted(str(name_of_value(v, N, vals, model)) for v in c['hvals'])} for c in s['canon']]
+            if 'extract' in st:
+                def dt(t): return [t[0]] + [dt(a) if isinstance(a, list) else norm_fresh(str(name_of_value(a, N, vals, model))) for a in t[1:]]
+                st['extract'] = dict(st['extract']); st['extract']['term'] = dt(st['extract']['term'])
             if 'ematch' in st:
                 def dh(h): return None if h is None else {'id': h['id'], 'vals': sorted(norm_fresh(str(name_of_value(v, N, vals, model))) for v in h['vals'])}
                 st['ematch'] = {'unchanged': st['ematch']['unchanged'], 'matches': sorted(({'bound': mt['bound'], 'found': mt['found'], 'inst': dh(mt['inst']), 'binds': {k: dh(v) for k, v in mt['binds'].items()}} for mt in st['ematch']['matches']), key=lambda x: json.dumps(x, sort_keys=True))}
